@@ -1,6 +1,387 @@
 import Fabio.Driver.Proto
+import Fabio.Driver.RouteJson
+import Fabio.Model.Route
+import Fabio.Model.C04
+import Fabio.Model.C04Spec
+/-!
+Driver handlers for C04. For every stream: `agree` compares the Go observation with the model
+(`Model.Route.newTable` for the weights — tolerance 2⁻⁴⁰ per weight —, `Model.C04.fillRing` for the ring,
+`rrPick`/`rndPick`/`lookupPick` for the picks) and `spec` evaluates `Model.C04.specFailures` (and the
+cycle/starvation clauses) on the implementation's own output.
+-/
 namespace Fabio.Driver.C04
-open Lean Fabio.Driver
+open Lean Fabio Fabio.Driver Fabio.Driver.RouteJson Fabio.Model.Route Fabio.Model.C04
 
-def streams : List (String × Handler) := []
+def errName : Err → String
+  | .invalidPrefix => "invalidPrefix" | .invalidTarget => "invalidTarget" | .badURL => "badURL"
+  | .badGlob => "badGlob" | .noMatch => "noMatch" | .invalidCommand => "invalidCommand"
+
+/-! ### comparison
+
+`RouteJson.closeJson` with one change: requested (`fixed`) weights are compared with a *relative* tolerance
+2⁻⁴⁰·max(1,|a|,|b|) — `setWeight` divides the share by the number of targets in float64, so for a share of
+10²⁵ the absolute error of the quotient is far above 2⁻⁴⁰ although its relative error is 2⁻⁵³. Effective
+weights (all in [0,1]) keep the absolute tolerance 2⁻⁴⁰. -/
+
+def absQ (a : Rat) : Rat := if a < 0 then -a else a
+def relClose (a b : Rat) : Bool :=
+  let m := if absQ a < absQ b then absQ b else absQ a
+  absQ (a - b) ≤ eps * (if m < 1 then 1 else m)
+
+partial def closeJsonRel (model impl : Json) : Bool :=
+  match model, impl with
+  | .obj m, .obj _ =>
+    m.toList.all (fun (k, v) =>
+      match impl.getObjVal? k with
+      | .ok w =>
+        if k == "fixed" || k == "weight" then
+          match v, w with
+          | .str a, .str b => (match parseRat a, parseRat b with
+              | some x, some y => if k == "fixed" then relClose x y else ratClose x y
+              | _, _ => a == b)
+          | _, _ => false
+        else closeJsonRel v w
+      | .error _ => false)
+  | .arr a, .arr b => a.size == b.size && (a.toList.zip b.toList).all (fun (x, y) => closeJsonRel x y)
+  | a, b => a == b
+
+/-! ### decoding -/
+
+def ringOfJson (j : Json) : Except String (Array (Option Nat)) :=
+  match j with
+  | .str s => pure (s.toList.toArray.map (fun c =>
+      if c == '!' then none else if c == '#' then some 1000000000 else some (c.toNat - 48)))
+  | .arr a => a.mapM (fun x => do
+      let i ← x.getInt?
+      pure (if i == -2 then none else if i < 0 then some 1000000000 else some i.toNat))
+  | _ => throw "ring: expected string or array"
+
+def ratList (j : Json) : Except String (List Rat) := do
+  let a ← j.getArr?
+  a.toList.mapM (fun x => do
+    let s ← x.getStr?
+    match parseRat s with
+    | some r => pure r
+    | none => throw s!"bad rational {s}")
+
+def natArr (j : Json) : Except String (Array Nat) := do
+  let a ← j.getArr?
+  a.mapM (fun x => do
+    let i ← x.getInt?
+    pure (if i < 0 then 1000000000 else i.toNat))
+
+/-- observations from a `VerifDump` table plus the parallel `rings` list -/
+def obsOfTable (impl : Json) : Except String (List RouteObs) := do
+  let hosts ← (← impl.getObjVal? "table").getArr?
+  let rings ← (← impl.getObjVal? "rings").getArr?
+  let mut routes : List Json := []
+  for h in hosts do
+    let rs ← (← h.getObjVal? "routes").getArr?
+    routes := routes ++ rs.toList
+  if routes.length != rings.size then throw "rings/table length mismatch"
+  let mut out : List RouteObs := []
+  for (r, g) in routes.zip rings.toList do
+    let ts ← (← r.getObjVal? "targets").getArr?
+    let fixed ← ts.toList.mapM (fun t => getRat t "fixed")
+    let weight ← ts.toList.mapM (fun t => getRat t "weight")
+    let ring ← ringOfJson g
+    out := out ++ [({ fixed := fixed, weight := weight, ring := ring } : RouteObs)]
+  return out
+
+/-- observation from the single-route output of the rr/rnd streams -/
+def obsOfRoute (impl : Json) : Except String RouteObs := do
+  let fixed ← ratList (← impl.getObjVal? "fixed")
+  let weight ← ratList (← impl.getObjVal? "weight")
+  let ring ← ringOfJson (← impl.getObjVal? "ring")
+  return ({ fixed := fixed, weight := weight, ring := ring } : RouteObs)
+
+/-! ### classification (branch tags) -/
+
+def weightClass (o : RouteObs) : String :=
+  let n := o.fixed.length
+  let fx := o.fixed.filter (fun f => decide (0 < f))
+  let sf := sumR fx
+  let sz := if n = 1 then "1" else if n ≤ 5 then "2-5" else if n ≤ 20 then "6-20" else "21+"
+  let c :=
+    if fx.length = 0 then "no-fixed"
+    else if 1 < sf then (if fx.length = n then "all-fixed-sum>1" else "fixed-sum>1+dyn")
+    else if fx.length = n then (if sf < 1 then "all-fixed-sum<1" else "all-fixed-sum=1")
+    else "fixed+dyn"
+  c ++ "/" ++ sz
+
+def biggest (os : List RouteObs) : Option RouteObs :=
+  os.foldl (fun b o => match b with
+    | none => some o
+    | some x => if x.weight.length < o.weight.length then some o else some x) none
+
+/-- pure-ℚ slot counts of the model's weights against the observed counts: within one slot of each other
+(float64 products can fall on the other side of an integer) -/
+def slotsNear (modelW : List Rat) (o : RouteObs) : Bool :=
+  if !hasFixed o then true else
+  let counts := ringCounts o.weight.length o.ring
+  (List.range modelW.length).all (fun i =>
+    let m := slotCount (modelW.getD i 0)
+    let c : Int := ((counts.getD i 0 : Nat) : Int)
+    decide (m - c ≤ 1 ∧ c - m ≤ 1))
+
+def modelWeights (t : Table) : List (List Rat) :=
+  (sortHosts t).foldr (fun kv acc => kv.2.map (fun r => r.targets.map (·.weight)) ++ acc) []
+
+/-- the definitions as the harness completed them (`weight` = exact rational of the parsed token) -/
+def rawDefs (inp impl : Json) : Except String (Array Json) :=
+  match impl.getObjValAs? (Array Json) "defs" with
+  | .ok a => pure a
+  | .error _ => inp.getObjValAs? (Array Json) "defs"
+
+def defsOf (inp impl : Json) : Except String (List RouteDef) := do
+  let a ← rawDefs inp impl
+  a.toList.mapM routeDef
+
+def verdictOfSpec (fails : List String) (okTag : String) : Bool × String :=
+  match fails with
+  | [] => (true, okTag)
+  | f :: _ => (false, "spec-" ++ f)
+
+/-! ### c04.weights -/
+
+def weightsH : Handler := fun inp impl => do
+  let defs ← defsOf inp impl
+  let env := envOf ((impl.getObjVal? "oracle").toOption.getD (Json.mkObj []))
+  match newTable env defs with
+  | .error e =>
+    let m := Json.mkObj [("error", errName e)]
+    return ({ model := m, agree := closeJsonRel m impl, spec := true, nontrivial := false, tag := "err-" ++ errName e } : Verdict).toJson
+  | .ok t =>
+    let m := Json.mkObj [("table", tableJson t)]
+    if (impl.getObjVal? "table").toOption.isNone then
+      return ({ model := m, agree := false, spec := true, nontrivial := false, tag := "impl-error" } : Verdict).toJson
+    let os ← obsOfTable impl
+    let tableOk := closeJsonRel m impl
+    let ringRes := os.map ringAgrees
+    let ringsOk := ringRes.all (·.1)
+    let mw := modelWeights t
+    let slotsOk := mw.length == os.length && (mw.zip os).all (fun (w, o) => slotsNear w o)
+    let fails := os.foldr (fun o acc => specFailures o ++ acc) []
+    let cls := match biggest os with
+      | some o => weightClass o
+      | none => "empty"
+    let (spec, tag) := verdictOfSpec fails cls
+    let tag := if spec && !tableOk then "weights-differ"
+      else if spec && !ringsOk then "ring-differs-" ++ ((ringRes.find? (fun r => !r.1)).map (·.2)).getD ""
+      else if spec && !slotsOk then "slots-differ"
+      else tag
+    let nt := os.any (fun o => decide (o.weight.length ≥ 2) && hasFixed o)
+    return ({ model := m, agree := tableOk && ringsOk && slotsOk, spec, nontrivial := nt, tag } : Verdict).toJson
+
+/-! ### shared by rr / rnd: the model's view of the route that is looked up -/
+
+def lowerHostPath (src : Str) : Str × Str :=
+  let (h, p) := hostpath src
+  (lowerL h, p)
+
+/-- model weights of the route named by `src` (none: no such route) -/
+def modelRoute (env : Env) (defs : List RouteDef) (src : Str) : Except Err (Option Route) :=
+  match newTable env defs with
+  | .error e => .error e
+  | .ok t =>
+    let (h, p) := lowerHostPath src
+    .ok (t.route h p)
+
+def weightsClose (r : Route) (o : RouteObs) : Bool :=
+  r.targets.length == o.weight.length &&
+  (r.targets.zip (o.weight.zip o.fixed)).all (fun (t, w, f) => ratClose t.weight w && relClose t.fixedWeight f)
+
+def uint64Max : Nat := 2^64
+
+def picksJson (ps : Array Nat) : Json := Json.arr (ps.map (fun p => Json.num (JsonNumber.fromNat p)))
+
+/-- the picks the model predicts: `lookupPick` shortcut for 0/1 targets, else `rrPick` on the ring
+(closed form of `rrRun`, theorem `rrRun_eq`): slot `((start + j) mod 2⁶⁴) mod N`. `none` = panic. -/
+def modelRR (n : Nat) (ring : Array (Option Nat)) (start k : Nat) : Option (Array Nat × Nat) :=
+  if n = 0 then none
+  else if n = 1 then some (Array.replicate k 0, start)
+  else if ring.size = 0 then none
+  else
+    let ps := (Array.range k).map (fun j => match ring.getD (((start + j) % uint64Max) % ring.size) none with
+      | some i => i
+      | none => 1000000000)
+    some (ps, (start + k) % uint64Max)
+
+def rrH : Handler := fun inp impl => do
+  let defs ← defsOf inp impl
+  let env := envOf ((impl.getObjVal? "oracle").toOption.getD (Json.mkObj []))
+  let src ← getStr inp "src"
+  let k := (inp.getObjValAs? Nat "k").toOption.getD 0
+  let start := ((inp.getObjValAs? String "start").toOption.bind String.toNat?).getD 0
+  match modelRoute env defs src with
+  | .error e =>
+    let m := Json.mkObj [("error", errName e)]
+    return ({ model := m, agree := closeJsonRel m impl, spec := true, nontrivial := false, tag := "err-" ++ errName e } : Verdict).toJson
+  | .ok none =>
+    let m := Json.mkObj [("noroute", true)]
+    return ({ model := m, agree := closeJsonRel m impl, spec := true, nontrivial := false, tag := "noroute" } : Verdict).toJson
+  | .ok (some r) =>
+    if (impl.getObjVal? "picks").toOption.isNone then
+      return ({ model := Json.null, agree := false, spec := true, nontrivial := false, tag := "impl-error" } : Verdict).toJson
+    let o ← obsOfRoute impl
+    let picks ← natArr (← impl.getObjVal? "picks")
+    let total := ((impl.getObjValAs? String "total").toOption.bind String.toNat?).getD 0
+    let n := o.weight.length
+    let wOk := weightsClose r o
+    let (ringOk, _) := ringAgrees o
+    let mp := modelRR n o.ring start k
+    let picksOk := match mp with
+      | some (ps, tot) => ps == picks && tot == total
+      | none => false
+    let m := match mp with
+      | some (ps, tot) => Json.mkObj [("picks", picksJson (ps.extract 0 20)), ("total", toString tot)]
+      | none => Json.mkObj [("panic", true)]
+    -- specification on the implementation's picks
+    let fails0 := specFailures o
+    let N := o.ring.size
+    -- the cursor wraps at 2^64: windows are checked on each side of the wrap
+    let wrapAt := uint64Max - start
+    let segs : List (Array Nat) := if n ≤ 1 then [] else if wrapAt < k then [picks.extract 0 wrapAt, picks.extract wrapAt k] else [picks]
+    let cyc := segs.all (fun s => windowsExact n o.ring s)
+    let zeroPicked := picks.any (fun i => decide (i ≥ n) || decide (o.weight.getD i 0 ≤ 0))
+    let single := n != 1 || picks.all (· == 0)
+    let fails := fails0 ++ (if cyc then [] else ["cycle-not-exact"]) ++ (if zeroPicked then ["zero-weight-picked"] else [])
+      ++ (if single then [] else ["single-target-shortcut"])
+    let cls := (if n = 1 then "single" else if !hasFixed o then "bypass" else "ring") ++
+      (if wrapAt < k then "/wrap" else "") ++ (if k ≥ 2 * N then "/2N+" else if k ≥ N then "/N+" else "/<N")
+    let (spec, tag) := verdictOfSpec fails cls
+    let tag := if spec && !wOk then "weights-differ" else if spec && !ringOk then "ring-differs" else if spec && !picksOk then "picks-differ" else tag
+    return ({ model := m, agree := wOk && ringOk && picksOk, spec, nontrivial := decide (n ≥ 2 ∧ k ≥ N), tag } : Verdict).toJson
+
+/-! ### c04.rnd -/
+
+def rndH : Handler := fun inp impl => do
+  let defs ← defsOf inp impl
+  let env := envOf ((impl.getObjVal? "oracle").toOption.getD (Json.mkObj []))
+  let src ← getStr inp "src"
+  let rands ← natArr ((inp.getObjVal? "rands").toOption.getD (Json.arr #[]))
+  match modelRoute env defs src with
+  | .error e =>
+    let m := Json.mkObj [("error", errName e)]
+    return ({ model := m, agree := closeJsonRel m impl, spec := true, nontrivial := false, tag := "err-" ++ errName e } : Verdict).toJson
+  | .ok none =>
+    let m := Json.mkObj [("noroute", true)]
+    return ({ model := m, agree := closeJsonRel m impl, spec := true, nontrivial := false, tag := "noroute" } : Verdict).toJson
+  | .ok (some r) =>
+    if (impl.getObjVal? "picks").toOption.isNone then
+      return ({ model := Json.null, agree := false, spec := true, nontrivial := false, tag := "impl-error" } : Verdict).toJson
+    let o ← obsOfRoute impl
+    let picks ← natArr (← impl.getObjVal? "picks")
+    let asked ← natArr (← impl.getObjVal? "asked")
+    let n := o.weight.length
+    let wOk := weightsClose r o
+    let (ringOk, _) := ringAgrees o
+    let ringL := o.ring.toList
+    -- model: lookupPick + rndPick with randIntn n = rands[j] % n
+    let mpicks : Array Nat := (Array.range rands.size).map (fun j =>
+      match lookupPick n (rndPick ringL (fun m => if m = 0 then 0 else ((rands.getD j 0 % m : Nat) : Int))) with
+      | .ok (some i) => i
+      | _ => 1000000000)
+    let masked : Array Nat := if n ≤ 1 then #[] else Array.replicate rands.size o.ring.size
+    let picksOk := mpicks == picks && masked == asked
+    let m := Json.mkObj [("picks", picksJson mpicks), ("asked", picksJson masked)]
+    let zeroPicked := picks.any (fun i => decide (i ≥ n) || decide (o.weight.getD i 0 ≤ 0))
+    let fails := specFailures o ++ (if zeroPicked then ["zero-weight-picked"] else [])
+    let cls := if n = 1 then "single" else if !hasFixed o then "bypass" else "ring"
+    let (spec, tag) := verdictOfSpec fails cls
+    let tag := if spec && !wOk then "weights-differ" else if spec && !ringOk then "ring-differs" else if spec && !picksOk then "picks-differ" else tag
+    return ({ model := m, agree := wOk && ringOk && picksOk, spec, nontrivial := decide (n ≥ 2), tag } : Verdict).toJson
+
+/-! ### c04.hostile
+
+The model after the repair of D02: a weight that is not a finite number is refused — by the parser for a
+token `strconv.ParseFloat` rejects (`wparse = err`, text mode: the whole text is refused before any command
+runs), by `addRoute`/`weighRoute` with "route: invalid weight" for NaN/±Inf (checked first, before the
+prefix/target checks) —, and every finite weight, however large or small, yields the ℚ weights of `weigh`. -/
+
+def isNonFinite (d : Json) : Bool :=
+  match d.getObjValAs? String "weight" with
+  | .ok s => s == "nan" || s == "inf" || s == "-inf"
+  | .error _ => false
+
+/-- decode the definitions with their finiteness flag and run `newTableW` -/
+def hostileBuild (env : Env) (ds : List Json) : Except String (Except String Table) := do
+  let defs ← ds.mapM (fun d => do
+    if isNonFinite d then
+      let rd ← routeDef (d.setObjVal! "weight" (Json.str "0/1"))
+      pure (rd, false)
+    else
+      let rd ← routeDef d
+      pure (rd, true))
+  match newTableW env defs with
+  | .ok t => return (.ok t)
+  | .error none => return (.error "invalidWeight")
+  | .error (some e) => return (.error (errName e))
+
+def hostileH : Handler := fun inp impl => do
+  let ds ← rawDefs inp impl
+  let env := envOf ((impl.getObjVal? "oracle").toOption.getD (Json.mkObj []))
+  let text := (inp.getObjValAs? Bool "text").toOption.getD false
+  let wparse := ((impl.getObjValAs? (Array String) "wparse").toOption.getD #[])
+  let hostileTok := ds.toList.any (fun d => isNonFinite d ||
+    (match (d.getObjValAs? String "weight").toOption.bind parseRat with
+     | some w => decide (w > 1000000) || decide (0 < w ∧ w < 1 / 1000000)
+     | none => false)) || wparse.any (· == "err")
+  let implPanic := (impl.getObjVal? "panic").toOption.isSome
+  let panicTag : String := match impl.getObjValAs? String "panic" with
+    | .ok s => if (s.splitOn "makeslice").length > 1 then "panic-makeslice"
+               else if (s.splitOn "divide by zero").length > 1 then "panic-divide-by-zero"
+               else if (s.splitOn "index out of range").length > 1 then "panic-index"
+               else if (s.splitOn "nil pointer").length > 1 then "panic-nil"
+               else "panic-other"
+    | .error _ => ""
+  -- `route weight` with a share so small that share/n underflows to 0 (or loses all precision) in float64:
+  -- the ℚ model keeps a positive fixed weight where Go gets 0 = "dynamic". Outside the model (assumption
+  -- "float64 vs ℚ"); only the specification is evaluated on such a case.
+  let underflow := ds.toList.any (fun d =>
+    (d.getObjValAs? String "cmd").toOption == some "weight" &&
+    (match (d.getObjValAs? String "weight").toOption.bind parseRat with
+     | some w => decide (0 < absQ w ∧ absQ w < pow2 (-1000))
+     | none => false))
+  let res ← (if text && wparse.any (· == "err") then pure (.error "parseWeight") else hostileBuild env ds.toList)
+  match res with
+  | .error e =>
+    let m := Json.mkObj [("error", e)]
+    let tag := if implPanic then "spec-" ++ panicTag else "err-" ++ e
+    return ({ model := m, agree := closeJsonRel m impl, spec := !implPanic, nontrivial := hostileTok, tag } : Verdict).toJson
+  | .ok t =>
+    let m := Json.mkObj [("table", tableJson t)]
+    if implPanic then
+      return ({ model := m, agree := false, spec := false, nontrivial := hostileTok, tag := "spec-" ++ panicTag } : Verdict).toJson
+    if (impl.getObjVal? "table").toOption.isNone then
+      return ({ model := m, agree := false, spec := true, nontrivial := hostileTok, tag := "impl-error" } : Verdict).toJson
+    let os ← obsOfTable impl
+    let tableOk := underflow || closeJsonRel m impl
+    let ringsOk := os.all (fun o => (ringAgrees o).1)
+    -- picks: per route rr ×3 from cursor 0, then one rnd draw with randIntn n = (j*7919) % n, j counting draws
+    let picksJ ← (← impl.getObjVal? "picks").getArr?
+    let mut j := 0
+    let mut picksOk := picksJ.size == os.length
+    let mut zeroPicked := false
+    for (o, pj) in os.zip picksJ.toList do
+      let ps ← natArr pj
+      j := j + 1
+      let N := o.ring.size
+      let slot (k : Nat) : Nat := if N = 0 then 1000000000 else match o.ring.getD (k % N) none with
+        | some i => i
+        | none => 1000000000
+      let want : Array Nat := #[slot 0, slot 1, slot 2, slot ((j * 7919) % (if N = 0 then 1 else N))]
+      if want != ps then picksOk := false
+      if ps.any (fun i => decide (i ≥ o.weight.length) || decide (o.weight.getD i 0 ≤ 0)) then zeroPicked := true
+    let fails := os.foldr (fun o acc => specFailures o ++ acc) [] ++ (if zeroPicked then ["zero-weight-picked"] else [])
+    let cls := match biggest os with
+      | some o => "table/" ++ weightClass o
+      | none => "table/empty"
+    let (spec, tag) := verdictOfSpec fails cls
+    let tag := if spec && !tableOk then "weights-differ" else if spec && !ringsOk then "ring-differs" else if spec && !picksOk then "picks-differ"
+      else if spec && underflow then "float-underflow-share" else tag
+    return ({ model := m, agree := tableOk && ringsOk && picksOk, spec, nontrivial := hostileTok && !underflow, tag } : Verdict).toJson
+
+def streams : List (String × Handler) :=
+  [("c04.weights", weightsH), ("c04.rr", rrH), ("c04.rnd", rndH), ("c04.hostile", hostileH)]
 end Fabio.Driver.C04
